@@ -59,9 +59,10 @@ def c16_run(rng, stock, cls, width, transport):
     cfg["stock"] = stock
     cfg["transport"] = transport
     steps = [{"op": "start"}, {"op": "idle"}]
-    nclients = rng.choice([1, 1, 2, 3])
+    nclients = rng.choice([1, 2, 2, 3])
+    same = rng.random() < 0.6
     for i in range(nclients):
-        steps.append({"op": "connect", "c": i + 1, "w": width if i == 0 else rng.choice(WIDTHS + [rng.randint(1, 300)]),
+        steps.append({"op": "connect", "c": i + 1, "w": width if (i == 0 or same) else rng.choice(WIDTHS + [rng.randint(1, 300)]),
                       "hs": rng.choice(["ok", "ok", "extra"])})
         if rng.random() < 0.5:
             steps.append({"op": "run", "n": rng.choice([1, 3, 10])})
@@ -286,6 +287,11 @@ def c17_unit(rng, seed):
         if rng.random() < 0.5:
             gates = [rng.randrange(8) for _ in range(rng.choice([1, 2, 4]))]
         cmds.append({"text": text, "direct": direct, "gates": gates})
+        if rng.random() < 0.3:
+            # noise: a help request / usage error on another session; must not leak into anybody's reply
+            base = text.split(" ")[0]
+            cmds.append({"text": rng.choice([base + " -h", base + " --help", "no-such-command", base + " zz zz zz zz", "-h"]),
+                         "noise": True, "direct": None, "gates": []})
     return cfg, cmds
 
 
@@ -300,8 +306,16 @@ def c17_exec(cfg, cmds, mode):
         # a tiny state machine producing steps; results are sampled at idle points
         i, ph = state["i"], state["phase"]
         if ph == 0:
-            state["phase"] = 1
+            state["phase"] = 0.5 if mode == "served" else 2
             return {"op": "start"} if mode == "served" else {"op": "idle"}
+        if ph == 0.5:
+            state["phase"] = 0.7
+            state["session"] = 1
+            return {"op": "connect", "c": 1, "w": 80}
+        if ph == 0.7:
+            state["phase"] = 1
+            state["session"] = 2
+            return {"op": "connect", "c": 2, "w": 80}
         if ph == 1:
             state["phase"] = 2
             return {"op": "idle"}
@@ -313,14 +327,21 @@ def c17_exec(cfg, cmds, mode):
             if mode == "served":
                 # use a session that is not blocked by an unanswered (waiting) command
                 free = [c for c in s.clients.values() if c.connected and len(c.replies()) == len(c.lines)]
+                other = [c for c in free if c.label != state.get("last")]
+                if other:
+                    free = other
                 if not free:
                     state["session"] += 1
                     state["phase"] = 2
                     state["connecting"] = True
                     return {"op": "connect", "c": state["session"], "w": 80}
                 c = free[0]
-                state["map"][i] = (c.label, len(c.lines))
+                state["last"] = c.label
+                if not cmd.get("noise"):
+                    state["map"][i] = (c.label, len(c.lines))
                 return {"op": "line", "c": c.label, "text": cmd["text"]}
+            if cmd.get("noise"):
+                return {"op": "idle"}
             state["map"][i] = len(s.direct_results)
             return dict(cmd["direct"], op="direct")
         if ph == 3:
